@@ -85,6 +85,7 @@ class Job:
         nondet_static=False,
         object_bits=None,
         extra_instrument=(),
+        split=False,
     ):
         self.name = name
         self.sources = list(sources)
@@ -107,6 +108,7 @@ class Job:
         self.nondet_static = nondet_static
         self.object_bits = object_bits
         self.extra_instrument = list(extra_instrument)
+        self.split = split
 
 
 def parse_cbmc_json(out):
@@ -161,11 +163,8 @@ def prop_class(r):
     return "other"
 
 
-def run_job(job, workdir):
-    """Executes the pipeline. Returns a dict."""
-    os.makedirs(workdir, exist_ok=True)
-    log = os.path.join(workdir, "log.txt")
-    res = {
+def _new_result(job, workdir):
+    return {
         "name": job.name,
         "entry": job.entry,
         "enforce": job.enforce,
@@ -176,13 +175,19 @@ def run_job(job, workdir):
         "discharged": 0,
         "failed": [],
         "solver": None,
+        "solvers_used": {},
         "solver_s": 0.0,
         "wall_s": 0.0,
         "classes": {},
         "meta": job.meta,
         "workdir": workdir,
     }
-    t0 = time.time()
+
+
+def prepare(job, workdir):
+    """goto-cc + goto-instrument.  Returns (gb_path or None, reason)."""
+    os.makedirs(workdir, exist_ok=True)
+    log = os.path.join(workdir, "log.txt")
     a = os.path.join(workdir, "a.gb")
     b = os.path.join(workdir, "b.gb")
     cc = ["goto-cc", "--function", job.entry]
@@ -193,9 +198,7 @@ def run_job(job, workdir):
     cc += job.sources + ["-o", a]
     rc, out, err, _ = run(cc, workdir, 300, job.mem_gb, log)
     if rc != 0:
-        res["reason"] = "goto-cc failed: " + err.decode("utf-8", "replace")[-600:]
-        res["wall_s"] = time.time() - t0
-        return res
+        return None, "goto-cc failed: " + err.decode("utf-8", "replace")[-600:]
     cur = a
     if job.enforce or job.replace or job.loop_contracts:
         gi = ["goto-instrument", "--dfcc", job.entry]
@@ -209,10 +212,12 @@ def run_job(job, workdir):
         gi += [a, b]
         rc, out, err, _ = run(gi, workdir, 600, job.mem_gb, log)
         if rc != 0:
-            res["reason"] = "goto-instrument failed: " + (out + err).decode("utf-8", "replace")[-900:]
-            res["wall_s"] = time.time() - t0
-            return res
+            return None, "goto-instrument failed: " + (out + err).decode("utf-8", "replace")[-900:]
         cur = b
+    return cur, ""
+
+
+def base_cmd(job):
     base = ["cbmc"] + job.checks
     if job.unwind is not None:
         base += ["--unwind", str(job.unwind), "--unwinding-assertions"]
@@ -223,11 +228,59 @@ def run_job(job, workdir):
     if job.nondet_static:
         base += ["--nondet-static"]
     base += job.extra_cbmc
+    return base
+
+
+def list_properties(job, gb, workdir):
+    log = os.path.join(workdir, "log.txt")
+    rc, out, err, _ = run(base_cmd(job) + [gb, "--show-properties", "--json-ui"], workdir, 300, job.mem_gb, log)
+    try:
+        data = json.loads(out.decode("utf-8", "replace"))
+    except Exception:
+        return None
+    for item in data:
+        if isinstance(item, dict) and "properties" in item:
+            return item["properties"]
+    return None
+
+
+HARD = ("postcondition", "precondition", "loop_invariant_base", "loop_invariant_step", "loop_decreases")
+
+
+def split_groups(props):
+    """Each contract-level obligation gets its own solver run; the mass of frame /
+    pointer / bounds obligations shares one."""
+    hard, rest = [], []
+    for p in props:
+        name = p.get("name", "")
+        desc = p.get("description", "")
+        c = prop_class({"property": name, "description": desc})
+        if "vf_canary" in desc:
+            hard.append([name])
+        elif c in HARD and not name.startswith(("free.", "malloc.", "__CPROVER")):
+            hard.append([name])
+        else:
+            rest.append(name)
+    groups = hard
+    if rest:
+        groups.append(rest)
+    return groups
+
+
+def solve(job, gb, workdir, props=None, tag=""):
+    """One cbmc run (optionally restricted to a list of property names) with the
+    job's solver portfolio.  Returns dict(status, reason, results[], solver, solver_s, cmd)."""
+    log = os.path.join(workdir, "log%s.txt" % tag)
+    base = base_cmd(job)
+    if props:
+        for p in props:
+            base += ["--property", p]
     last_reason = ""
+    total = 0.0
     for solver in job.solvers:
-        cmd = base + SOLVERS[solver] + [cur, "--json-ui"]
+        cmd = base + SOLVERS[solver] + [gb, "--json-ui"]
         rc, out, err, dt = run(cmd, workdir, job.timeout, job.mem_gb, log)
-        res["solver_s"] += dt
+        total += dt
         if rc is None:
             last_reason = "timeout(%ds) with %s" % (job.timeout, solver)
             continue
@@ -243,15 +296,32 @@ def run_job(job, workdir):
             else:
                 last_reason = "no result from cbmc (%s, rc=%s): %s" % (solver, rc, tail)
             continue
-        res["solver"] = solver
-        res["cbmc_cmd"] = " ".join(cmd[:-2] + ["<instrumented.gb>"])
-        with open(os.path.join(workdir, "result.json"), "wb") as f:
+        with open(os.path.join(workdir, "result%s.json" % tag), "wb") as f:
             f.write(out)
-        failed = []
-        canary_failed = False
-        n = 0
-        classes = {}
-        for r in results:
+        if props:
+            want = set(props)
+            results = [r for r in results if r.get("property") in want]
+        return {
+            "status": "done", "reason": "", "results": results, "solver": solver, "solver_s": total,
+            "cmd": " ".join(cmd[:-2] + ["<instrumented.gb>"]),
+        }
+    return {"status": "undecided", "reason": last_reason, "results": [], "solver": None, "solver_s": total, "cmd": ""}
+
+
+def merge(job, res, parts):
+    """Fold the outcome of one or more solve() calls into the job result."""
+    failed = []
+    canary_failed = False
+    n = 0
+    classes = {}
+    undec = [p for p in parts if p["status"] != "done"]
+    for part in parts:
+        res["solver_s"] += part["solver_s"]
+        if part["solver"]:
+            res["solvers_used"][part["solver"]] = res["solvers_used"].get(part["solver"], 0) + 1
+            res["solver"] = part["solver"]
+            res["cbmc_cmd"] = part["cmd"]
+        for r in part["results"]:
             desc = r.get("description", "")
             if "vf_canary" in desc:
                 if r.get("status") == "FAILURE":
@@ -271,28 +341,42 @@ def run_job(job, workdir):
                         "trace": r.get("trace"),
                     }
                 )
-        res["obligations"] = n
-        res["discharged"] = n - len(failed)
-        res["classes"] = classes
-        res["failed"] = failed
-        if failed:
-            res["status"] = "fail"
-        elif job.canary and not canary_failed:
-            res["status"] = "undecided"
-            res["reason"] = "vacuity guard: canary assertion did not fail (unsatisfiable requires or unreachable end)"
-        elif n == 0:
-            res["status"] = "undecided"
-            res["reason"] = "vacuity guard: zero obligations"
-        else:
-            missing = [c for c in job.expect_classes if classes.get(c, 0) == 0]
-            if missing:
-                res["status"] = "undecided"
-                res["reason"] = "vacuity guard: no obligation of class " + ",".join(missing)
-            else:
-                res["status"] = "ok"
-        break
+    res["obligations"] = n
+    res["discharged"] = n - len(failed)
+    res["classes"] = classes
+    res["failed"] = failed
+    if failed:
+        res["status"] = "fail"
+    elif undec:
+        res["status"] = "undecided"
+        res["reason"] = "; ".join(sorted(set(p["reason"] for p in undec)))
+    elif job.canary and not canary_failed:
+        res["status"] = "undecided"
+        res["reason"] = "vacuity guard: canary assertion did not fail (unsatisfiable requires or unreachable end)"
+    elif n == 0:
+        res["status"] = "undecided"
+        res["reason"] = "vacuity guard: zero obligations"
     else:
-        res["reason"] = last_reason
+        missing = [c for c in job.expect_classes if classes.get(c, 0) == 0]
+        if missing:
+            res["status"] = "undecided"
+            res["reason"] = "vacuity guard: no obligation of class " + ",".join(missing)
+        else:
+            res["status"] = "ok"
+    return res
+
+
+def run_job(job, workdir):
+    """Unsplit pipeline (prepare + one solve)."""
+    res = _new_result(job, workdir)
+    t0 = time.time()
+    gb, reason = prepare(job, workdir)
+    if gb is None:
+        res["reason"] = reason
+        res["wall_s"] = time.time() - t0
+        return res
+    part = solve(job, gb, workdir)
+    merge(job, res, [part])
     res["wall_s"] = time.time() - t0
     return res
 
